@@ -10,6 +10,10 @@ streams
            the driver runs Model.parse / parseFragment on it; both trees are diffed (shape, order, text,
            parent links).  Items whose class has a digest method outside the model (tabular cells/rows,
            \\verb, ...) are recorded *after* their own digestion with the subtree they built (opaque).
+  mathmode: stacks of real context frames (group, ArgumentContext, command, math environment, \\ensuremath, \\mbox)
+           pushed on a real Context: `Context.isMathMode` vs Model.isMathMode (the decision readArgumentAndSource
+           takes before normalising an argument).
+  extend : `Node.extend(nodes and fragments, setParent)` on real DOM nodes vs Model.extend (who is re-parented).
   subs   : strings over quotes/dashes/letters: `Node.appendText` with the live substitution list vs Model.applySubs.
   (document level `doc7` in extra_checks: generated documents of the quantifier's grammar with unique
    marker words against an oracle written from the property text.)
@@ -26,9 +30,9 @@ LEVEL_TEXT = ('Lean 4 theorems over a line-by-line model of the digestion protoc
               'EQUALS the reading of the stream: no loss, no duplication, no reordering; the invariant is proved preserved by paragraphs/norm/digest), *_no_dup_no_reorder (subsequence, unconditional), '
               'parse_total/digest_total (fuel adequacy: parse never runs out of fuel), par_no_par (deep), parent_labels_consistent (deep, unconditional), sections_nest (a unit holds only paragraphs and '
               'units of level strictly between its own and ENDSECTIONS, on sectioning-skeleton streams) + sections_absorb_deeper/sections_stop_at_not_deeper (every stream), paragraphs_partition, '
-              'charsubs_idempotent, charsubs_complete, charsubs_plain, charsubs_scope_nosub/charsubs_never_in_nosub, charsubs_applied_to_text_run, buffered_push_next/flat, parse_well_formed (the clauses together). '
-              'The model is tied to the code by replaying, for generated documents, every real TeX.parse call (recorded item stream -> tree, shape/order/text/parent links) through the model, '
-              'and the whole statement is checked end-to-end on generated documents with unique marker words (doc7).')
+              'mathmode_transparent/args_in_math_unsubstituted (argument nesting never changes the math-mode decision taken when an argument is read), extend_noparent_untouched/extend_setparent_labels (scratch fragments of fullTitle/fullTocEntry never re-parent), charsubs_idempotent, charsubs_complete, charsubs_plain, charsubs_scope_nosub/charsubs_never_in_nosub, charsubs_applied_to_text_run, buffered_push_next/flat, parse_well_formed (the clauses together). '
+              'The model is tied to the code by exhaustive frame stacks on the real Context.isMathMode, exhaustive short Node.extend calls on real DOM nodes, and by replaying, for generated documents, every real TeX.parse call (recorded item stream -> tree, shape/order/text/parent links) through the model, '
+              'and the whole statement is checked end-to-end on generated documents with unique marker words (doc7), once after parsing and again after the read-only accesses a renderer makes (titles, toc entries, references, text content, source).')
 LEVEL_NOTE = ('Trusted: Lean kernel (propext, Classical.choice, Quot.sound), translator (levels, defaultCharsubs), the recording harness and its generators, the doc7 oracle, CPython. '
               'Not modelled: the expansion phase that produces the stream (C02/C05), digest overrides outside the model (Array rows/cells, \\verb, bibliography, index) which enter the model as '
               'already-built subtrees and are covered by doc7 only.')
@@ -300,6 +304,13 @@ class Recorder:
         return 't(%s|%s)' % (self.dots([ord(c) for c in str(x)]), okc)
 
 
+def _attached(frag):
+    """the fragment is the value of an argument of its parent (otherwise it is a scratch fragment that a cast consumed)"""
+    p = getattr(frag, 'parentNode', None)
+    a = getattr(p, 'attributes', None) if p is not None else None
+    return bool(a) and any(v is frag for v in a.values())
+
+
 def _has_self(x):
     a = x.attributes
     return bool(a) and 'self' in a
@@ -368,8 +379,9 @@ def run_document(src):
                 continue
             try:
                 line = rec.line(fr)
-                if line.startswith('digest raw') and any(w.split(':')[1] == '1' for w in line.split(' | ', 1)[1].split()):
-                    # un-normalised scratch fragments holding elements (label/ref/string casts): later touched by the
+                if line.startswith('digest raw') and (not _attached(out) or
+                                                      any(w.split(':')[1] == '1' for w in line.split(' | ', 1)[1].split())):
+                    # un-normalised scratch fragments (unattached, or holding elements: label/ref/string/list casts): later consumed or touched by the
                     # string-casting helper TeX.normalize, never part of the document tree
                     continue
                 d = ''.join(rec.dump(out, k, anyparent=line.startswith('digest raw')) for k in out.childNodes)
@@ -476,21 +488,35 @@ class Gen:
     def inlines(self, depth):
         return ' '.join(self.inline(depth) for _ in range(self.rng.randint(1, 3)))
 
+    MWRAP1 = ['\\mathbf{%s}', '\\mathit{%s}', '\\mathrm{%s}', '\\hat{%s}', '\\dot{%s}', '\\bar{%s}', '\\vec{%s}', '\\tilde{%s}',
+              '\\sqrt{%s}', '\\overline{%s}', '\\underline{%s}']
+
+    def mexpr(self, depth):
+        """a formula part; macro arguments nest up to `depth` deep and primes / double primes / double hyphens
+        (the characters the text substitutions react to) occur at every nesting level"""
+        r = self.rng
+        k = r.random()
+        if depth <= 0 or k < 0.35:
+            w = self.word()
+            if self.subs:
+                q = r.random()
+                if q < 0.25: w += "'"; self.features.add('mathprime')
+                elif q < 0.35: w += "''"; self.features.add('mathprime')
+                elif q < 0.40: w += '--1'
+            return w
+        if k < 0.70:
+            self.features.add('matharg%d' % min(depth, 3))
+            return r.choice(self.MWRAP1) % self.mexpr(depth - 1)
+        if k < 0.82:
+            return '\\frac{%s}{%s}' % (self.mexpr(depth - 1), self.mexpr(depth - 1))
+        if k < 0.92:
+            return '%s%s{%s}' % (self.word(), r.choice('^_'), self.mexpr(depth - 1))
+        return self.mexpr(depth - 1) + '-' + self.mexpr(depth - 1)
+
     def math(self, display):
         r = self.rng
         self.features.add('math')
-        parts = []
-        for _ in range(r.randint(1, 3)):
-            k = r.random()
-            w = self.word()
-            if k < 0.3: parts.append(w)
-            elif k < 0.45: parts.append(w + "'")
-            elif k < 0.6: parts.append('\\mathbf{%s}' % w)
-            elif k < 0.7: parts.append('\\frac{%s}{%s}' % (w, self.word()))
-            elif k < 0.8: parts.append('%s^{%s}' % (w, self.word()))
-            elif k < 0.9 and self.subs: parts.append("\\mathit{%s'}" % w); self.features.add('mathprime')
-            else: parts.append(w + '-' + self.word())
-        body = '+'.join(parts)
+        body = '+'.join(self.mexpr(r.randint(0, 3)) for _ in range(r.randint(1, 3)))
         if display:
             return r.choice(['\\[%s\\]', '$$%s$$', '\\begin{equation}%s\\end{equation}', '\\begin{displaymath}%s\\end{displaymath}']) % body
         return r.choice(['$%s$', '\\(%s\\)']) % body
@@ -516,11 +542,7 @@ class Gen:
             items = ''.join('\\item[%s] %s\n' % (self.words(1, 2), self.blocks(depth - 1, 1, 2).strip()) for _ in range(r.randint(1, 3)))
             return '\\begin{description}\n%s\\end{description}\n' % items
         if k < 0.68:
-            cols = r.randint(1, 3)
-            rows = []
-            for _ in range(r.randint(1, 3)):
-                rows.append(' & '.join(self.inlines(min(depth - 1, 1)) for _ in range(cols)))
-            return '\\begin{tabular}{%s}\n%s\n\\end{tabular}\n\n' % ('l' * cols, ' \\\\\n'.join(rows))
+            return self.tabular(depth)
         if k < 0.73:
             return self.single_par_env(depth - 1)
         if k < 0.78:
@@ -535,6 +557,30 @@ class Gen:
         if k < 0.96:
             return '\\begin{figure}\n%s\\caption{%s}\n\\end{figure}\n' % (self.blocks(depth - 1, 1, 1), self.inlines(1))
         return self.inlines(depth) + '\\par ' + self.inlines(1) + '\n\n'
+
+    def tabular(self, depth):
+        """tabulars with 1-3 columns, with or without vertical rules in the column specification, and with
+        \\hline / \\cline rules in front of rows and after the last one (a rule starts the first cell of the row)"""
+        r = self.rng
+        self.features.add('tabular')
+        cols = r.choice([1, 1, 2, 3])
+        self.features.add('tabular:%dcol' % cols)
+        ruled = r.random() < 0.5
+        spec = ''.join(r.choice('lcr') for _ in range(cols))
+        if ruled and r.random() < 0.6:
+            spec = '|' + '|'.join(spec) + '|'
+        rows = []
+        nrows = r.randint(1, 3)
+        for i in range(nrows):
+            rule = ''
+            if ruled and r.random() < 0.7:
+                self.features.add('tabular:rule')
+                rule = r.choice(['\\hline ', '\\hline\n', '\\cline{1-%d} ' % r.randint(1, cols), '\\hline\\hline '])
+            rows.append(rule + ' & '.join(self.inlines(min(depth - 1, 1)) for _ in range(cols)))
+        body = ' \\\\\n'.join(rows)
+        if ruled and r.random() < 0.6:
+            body += ' \\\\ \\hline'
+        return '\\begin{tabular}{%s}\n%s\n\\end{tabular}\n\n' % (spec, body)
 
     def blocks(self, depth, lo=1, hi=3):
         return ''.join(self.block(depth) for _ in range(self.rng.randint(lo, hi)))
@@ -625,6 +671,20 @@ def generate(ctx):
                 continue
             seen.add(c.key())
             yield c
+    import itertools as _it
+    # every frame stack up to depth 4 (quick) / 5 (thorough) over the six frame kinds, plus random deeper ones
+    for n in range(0, 5 if ctx.tier == 'quick' else 6):
+        for t in _it.product('gacmeb', repeat=n):
+            yield Case('mathmode', ' '.join(t), {'frames': ''.join(t)})
+    for i in range(200 if ctx.tier == 'quick' else 3000):
+        t = [rng.choice('gaacmeb') for _ in range(rng.randint(5, 12))]
+        yield Case('mathmode', ' '.join(t), {'frames': ''.join(t)})
+    # extend: every receiver kind x flag x short argument list
+    shapes = ['n', 'f0', 'f1', 'f2', 'f3']
+    for isf, hasp, sp in _it.product('01', repeat=3):
+        for n in range(0, 4):
+            for t in _it.product(shapes, repeat=n):
+                yield Case('extend', '%s %s %s | %s' % (isf, hasp, sp, ' '.join(t)), {'args': list(t), 'isf': isf, 'hasp': hasp, 'sp': sp})
     for i in range(300 if ctx.tier == 'quick' else 6000):
         s = gen_sub_string(rng)
         yield Case('subs', ' '.join(str(ord(c)) for c in s), {'s': s})
@@ -656,10 +716,76 @@ def corpus():
         out.extend(cs)
     for s in ["''''", '-----', '"`a', "`''", "a'-'--b", '"\'\'']:
         out.append(Case('subs', ' '.join(str(ord(c)) for c in s), {'s': s}, 'corpus'))
+    # $\\mathbf{\\hat{x'}}$: math, mathbf, ArgumentContext, hat, ArgumentContext
+    out.append(Case('mathmode', 'm c a c a', {'frames': 'mcaca'}, 'corpus'))
+    out.append(Case('mathmode', 'm b a c a', {'frames': 'mbaca'}, 'corpus'))
+    # fullTocEntry: scratch fragment, extend([ref, ' ', title fragment], setParent=False)
+    out.append(Case('extend', '1 0 0 | n n f2', {'args': ['n', 'n', 'f2'], 'isf': '1', 'hasp': '0', 'sp': '0'}, 'corpus'))
     return out
 
 
+def impl_mathmode(frames):
+    from plasTeX import TeXDocument
+    import plasTeX.TeX as T
+    doc = TeXDocument()
+    ctx = doc.context
+    names = {'c': 'mathbf', 'm': 'math', 'e': 'ensuremath', 'b': 'mbox'}
+    try:
+        for f in frames:
+            if f == 'g':
+                ctx.push()
+            elif f == 'a':
+                ctx.push(T.ArgumentContext())
+            else:
+                ctx.push(doc.createElement(names[f]))
+        return 'true' if ctx.isMathMode else 'false'
+    except Exception as e:
+        return 'err:' + type(e).__name__
+
+
+def impl_extend(meta):
+    from plasTeX import TeXDocument
+    doc = TeXDocument()
+    owner, orig = doc.createElement('textbf'), doc.createElement('emph')
+    if meta['isf'] == '1':
+        cont = doc.createDocumentFragment()
+        cont.parentNode = owner if meta['hasp'] == '1' else None
+        target = cont.parentNode
+    else:
+        cont = doc.createElement('textit')
+        cont.parentNode = owner if meta['hasp'] == '1' else None
+        target = cont
+    args, originals = [], []
+    for a in meta['args']:
+        if a == 'n':
+            x = doc.createElement('relax')
+            x.parentNode = orig
+            args.append(x)
+            originals.append((x, orig))
+        else:
+            f = doc.createDocumentFragment()
+            f.parentNode = orig
+            for _ in range(int(a[1:])):
+                k = doc.createElement('relax')
+                f.childNodes.append(k)
+                k.parentNode = f
+                originals.append((k, f))
+            args.append(f)
+    try:
+        cont.extend(args, setParent=(meta['sp'] == '1'))
+    except Exception as e:
+        return 'err:' + type(e).__name__
+    kids = list(cont.childNodes)
+    if len(kids) != len(originals) or any(k is not o for k, (o, _) in zip(kids, originals)):
+        return 'children:%d' % len(kids)
+    return ''.join('T' if k.parentNode is target else ('K' if k.parentNode is p else '?') for k, (_, p) in zip(kids, originals))
+
+
 def impl(case, aux):
+    if case.stream == 'mathmode':
+        return impl_mathmode(case.meta['frames'])
+    if case.stream == 'extend':
+        return impl_extend(case.meta)
     if case.stream == 'subs':
         from plasTeX import TeXDocument
         doc = TeXDocument()
@@ -684,6 +810,10 @@ def impl(case, aux):
 
 
 def judge(o):
+    if o.case.stream in ('mathmode', 'extend'):
+        o.corr_ok = (o.impl == o.model)
+        o.prop_ok = (o.impl == o.spec)
+        return
     if o.case.stream == 'subs':
         o.corr_ok = (o.impl == o.model)
         # property side: the substituted text contains none of the multi-character sources any more and keeps every other character
@@ -717,6 +847,10 @@ def judge(o):
 
 
 def nontrivial(o):
+    if o.case.stream == 'mathmode':
+        return len(o.case.meta['frames']) >= 2 and any(c in o.case.meta['frames'] for c in 'meb')
+    if o.case.stream == 'extend':
+        return any(a != 'n' for a in o.case.meta['args'])
     if o.case.stream == 'subs':
         return any(c in o.case.meta['s'] for c in '`\'-')
     return o.model not in ('fuel', 'bad-op') and re.search(r':[esbli]:\d+:', o.case.line) is not None and 'e(' in o.model and ')e(' in o.model
@@ -734,35 +868,78 @@ def shrink(ctx, o, evaluate):
     return o
 
 
-def shrink_doc(src, fails, budget=120):
-    """delta debugging on lines, then on words, keeping the preamble and \\end{document}"""
+def _chunks(body):
+    """split into balanced top-level chunks (whole environments / whole lines with balanced braces)"""
+    out, cur, env, brace = [], [], 0, 0
+    for line in body.split('\n'):
+        cur.append(line)
+        env += len(re.findall(r'\\begin\{', line)) - len(re.findall(r'\\end\{', line))
+        brace += line.count('{') - line.count('}')
+        if env <= 0 and brace <= 0:
+            out.append('\n'.join(cur))
+            cur, env, brace = [], 0, 0
+    if cur:
+        out.append('\n'.join(cur))
+    return out
+
+
+def _ddmin(parts, test, budget):
+    """classic delta debugging on a list; returns (smaller list, remaining budget)"""
+    n = 2
+    while len(parts) >= 2 and budget > 0:
+        chunk = max(1, len(parts) // n)
+        reduced = False
+        for i in range(0, len(parts), chunk):
+            cand = parts[:i] + parts[i + chunk:]
+            budget -= 1
+            try:
+                bad = test(cand)
+            except Exception:
+                bad = False
+            if bad:
+                parts, n, reduced = cand, max(n - 1, 2), True
+                break
+            if budget <= 0:
+                break
+        if not reduced:
+            if chunk == 1:
+                break
+            n = min(len(parts), n * 2)
+    return parts, budget
+
+
+def shrink_doc(src, fails, budget=400):
+    """delta debugging on balanced top-level chunks (with unwrapping of environments), then lines, then words,
+    keeping the preamble and \\end{document}"""
     m = re.match(r'(?s)(.*?\\begin\{document\}\n?)(.*)(\\end\{document\}\n?)$', src)
     if not m:
         return src
     head, body, tail = m.groups()
     tail = '\n\n' + tail      # keep a paragraph break: never drift into the known finding body-without-par
+    # 1 structural: whole chunks, then unwrap a surviving environment and repeat
+    for _ in range(6):
+        parts, budget = _ddmin(_chunks(body), lambda c: fails(head + '\n'.join(c) + tail), budget)
+        body = '\n'.join(parts)
+        unwrapped = False
+        for k, c in enumerate(parts):
+            mm = re.match(r'(?s)\s*\\begin\{([a-z*]+)\}(?:\{[^}]*\})?\n(.*)\n\\end\{\1\}\s*$', c)
+            if not mm or budget <= 0:
+                continue
+            inner = re.sub(r'(?m)^\\item(\[[^\]]*\])? ?', '', mm.group(2))
+            cand = '\n'.join(parts[:k] + [inner] + parts[k + 1:])
+            budget -= 1
+            try:
+                bad = fails(head + cand + tail)
+            except Exception:
+                bad = False
+            if bad:
+                body, unwrapped = cand, True
+                break
+        if not unwrapped:
+            break
+    # 2 lines, 3 words
     for splitter, joiner in ((lambda b: b.split('\n'), '\n'), (lambda b: b.split(' '), ' ')):
-        parts = splitter(body)
-        n = 2
-        while len(parts) >= 2 and budget > 0:
-            chunk = max(1, len(parts) // n)
-            reduced = False
-            for i in range(0, len(parts), chunk):
-                cand = parts[:i] + parts[i + chunk:]
-                budget -= 1
-                try:
-                    bad = fails(head + joiner.join(cand) + tail)
-                except Exception:
-                    bad = False
-                if bad:
-                    parts, n, reduced = cand, max(n - 1, 2), True
-                    break
-                if budget <= 0:
-                    break
-            if not reduced:
-                if chunk == 1:
-                    break
-                n = min(len(parts), n * 2)
+        parts, budget = _ddmin(splitter(body), lambda c: fails(head + joiner.join(c) + tail), budget)
         body = joiner.join(parts)
     return head + body + tail
 
@@ -858,6 +1035,32 @@ def doc7_check(src, markers, expect_subs=True):
             walk(k, n, nosub, body)
 
     walk(doc, None, False, False)
+    # what a renderer / table-of-contents builder reads (read-only operations): derived titles, toc entries,
+    # references, captions, text content, source.  The tree must be exactly as well-formed afterwards.
+    first = list(problems)
+    first_text = list(text)
+    for n in list(seen.values()):
+        if getattr(n, 'nodeType', None) != Node.ELEMENT_NODE:
+            continue
+        for attr in ('title', 'tocEntry', 'fullTitle', 'fullTocEntry', 'ref', 'captionName', 'id', 'currentSection'):
+            try:
+                getattr(n, attr)
+            except Exception:
+                pass
+    try:
+        doc.textContent
+        doc.source
+    except Exception:
+        pass
+    del problems[:]
+    del text[:]
+    seen.clear()
+    walk(doc, None, False, False)
+    second = ['after reading titles/toc entries/references: ' + p for p in problems if p not in first]
+    if [t for t, _, _ in text] != [t for t, _, _ in first_text]:
+        second.append('after reading titles/toc entries/references: the text of the tree changed')
+    problems[:] = first + second
+    text[:] = first_text
     full = ''.join(t for t, _, _ in text)
     found = MARK.findall(full)
     if found != markers:
@@ -942,10 +1145,32 @@ def _strip_comments(s):
 
 
 def _cat(p):
-    return p.split(':')[0]
+    return re.sub(r'\d+', '#', p.split(':')[0])
+
+
+def _balanced(src):
+    """cheap well-formedness filter for shrink candidates: braces, environments, math shifts and \\verb delimiters balanced"""
+    if src.count('{') != src.count('}') or src.count('$') % 2 or src.count('\\(') != src.count('\\)') or src.count('\\[') != src.count('\\]'):
+        return False
+    depth = 0
+    for ch in src:
+        depth += (ch == '{') - (ch == '}')
+        if depth < 0:
+            return False
+    stack = []
+    for m in re.finditer(r'\\(begin|end)\{([a-z*]+)\}', src):
+        if m.group(1) == 'begin':
+            stack.append(m.group(2))
+        elif not stack or stack.pop() != m.group(2):
+            return False
+    if stack:
+        return False
+    return all(seg.count('|') % 2 == 0 for seg in src.split('\n') if '\\verb|' in seg)
 
 
 def _still(src, cat=None):
+    if not _balanced(src):
+        return False
     ps = _problems(src)
     return bool(ps) if cat is None else any(_cat(p) == cat for p in ps)
 
